@@ -518,6 +518,66 @@ pub fn zst_leg() -> (Acc, u64) {
     (acc, n)
 }
 
+
+/// textually identical calls as the operands of one node: a non-cacheable function is invoked for
+/// every one of them, a cacheable one once
+fn identical_operands_leg() -> (Acc, u64) {
+    use std::sync::atomic::{AtomicU64, Ordering};
+    let mut acc = Acc::new();
+    let texts: [(&str, u64); 12] = [
+        ("F(i1) and F(i1)", 2),
+        ("!F(i1) or !F(i1)", 2),
+        ("F(i1) == F(i1)", 2),
+        ("F(i1) != F(i1)", 2),
+        ("[F(i1), F(i1)]", 2),
+        ("{a: F(i1), b: F(i1)}", 2),
+        ("if F(i1) then F(i1) else F(i1)", 2),
+        ("F(i1) and F(i1) and F(i1)", 3),
+        ("F(i1) & F(i1)", 2),
+        ("F(i1) | F(i1)", 2),
+        ("[F(i1)] contains F(i1)", 2),
+        ("(F(i1) and F(i1)) == (F(i1) and F(i1))", 4),
+    ];
+    let mut n = 0;
+    for (tmpl, calls) in texts {
+        for (fname, cacheable) in [("yes", false), ("cyes", true)] {
+            let text = tmpl.replace('F', fname);
+            let count = Arc::new(AtomicU64::new(0));
+            let c2 = count.clone();
+            let h: Handler = Arc::new(move |_n, _p| {
+                c2.fetch_add(1, Ordering::SeqCst);
+                (Ok(Value::Bool(true)), 0)
+            });
+            let rs = Expr::parse(&text)
+                .map_err(|e| e.to_string())
+                .and_then(|e| ruleset().with_rule(Rule::new("r", BTreeMap::new(), e)).and_then(|b| b.with_function(probe(if cacheable { "cyes" } else { "yes" }, cacheable, &h))).map_err(|e| e.to_string()));
+            let rs = match rs {
+                Ok(b) => b.build(),
+                Err(m) => {
+                    acc.machinery(format!("identical-operands leg: {text}: {m}"));
+                    continue;
+                }
+            };
+            n += 1;
+            acc.count("executions", 1);
+            let out = catch(|| block_on(rs.evaluate_value(&Value::None)));
+            let made = count.load(Ordering::SeqCst);
+            let want = if cacheable { 1 } else { calls };
+            let fine = matches!(&out, Ok(Ok(Ok(o))) if o.len() == 1 && o[0].value.is_ok());
+            if !fine || made != want {
+                acc.violation(Violation {
+                    sig: format!("identical-operands/{}", if cacheable { "cacheable" } else { "non-cacheable" }),
+                    what: format!("`{text}` with a {} function that returns true: {made} invocation(s), expected {want}; outcome {:?}", if cacheable { "cacheable" } else { "non-cacheable" }, out.map(|r| r.map(|x| x.map(|o| o.iter().map(|y| y.value.as_ref().map(|v| v.to_string()).map_err(|e| e.to_string())).collect::<Vec<_>>()).map_err(|e| e.to_string())))),
+                    case: json!({"kind": "identical-operands"}),
+                    size: text.len(),
+                });
+            }
+            acc.outcome("identical-operands");
+        }
+    }
+    (acc, n)
+}
+
 /// see the comment at the call site
 fn nan_leg() -> (Acc, u64) {
     fn bits_of(v: &Value) -> Value {
@@ -783,6 +843,12 @@ pub fn run(tier: Tier) -> i32 {
         rep.absorb(acc);
     }
     {
+        let (acc, n) = identical_operands_leg();
+        n_cases += n;
+        rep.bound("identical_operands_leg", format!("{n} rules whose operands are the same call text, cacheable and non-cacheable"));
+        rep.absorb(acc);
+    }
+    {
         let (acc, n) = zst_leg();
         n_cases += n;
         rep.bound("zero_sized_function_leg", format!("{n} call sequences <= 4 over three unit-struct functions x two arguments, two registration orders"));
@@ -932,6 +998,19 @@ pub fn run(tier: Tier) -> i32 {
 pub fn replay(case: &serde_json::Value) -> i32 {
     if case.get("kind").and_then(|k| k.as_str()) == Some("argument-crowd") {
         return crate::checks::crowd::replay(case);
+    }
+    if case.get("kind").and_then(|k| k.as_str()) == Some("identical-operands") {
+        let (acc, n) = identical_operands_leg();
+        println!("re-ran the {n} identical-operand rules");
+        return if acc.violations.is_empty() {
+            println!("verdict: holds");
+            0
+        } else {
+            for v in acc.violations.values() {
+                println!("verdict: VIOLATED — {}", v.what);
+            }
+            1
+        };
     }
     if case.get("kind").and_then(|k| k.as_str()) == Some("zero-sized-functions") {
         let (acc, n) = zst_leg();
